@@ -4,7 +4,14 @@
    so far is justified by the table w.r.t. the labels of the CURRENT database
    (labels never change, so this is also true w.r.t. any later database), and
    - only under the table contracts, switched on by the proposition C - the
-   cached emptiness values equal the classes' own answers.
+   cached emptiness values equal the classes' own answers, and a GHOST
+   predicate G on (class database, the two rule stores, trace) holds.  G is a
+   section variable: Gtriv (always true) gives the plain invariant; the
+   instance of RuleDB/SearchHist.v says "the rule stores are the key sets of
+   a RuleDB that received the trace's ruledb.add calls, each made under add_pre"
+   (composition C04 -> C14 / C02).  G only has to survive the growth of a
+   truthful class database (G_frame, here) and the events that are none of its
+   business (the emit lemmas take the step of G as a premise).
 
    Every function f of the model satisfies
        Inv s -> (running s = true -> precondition on labels) -> leq s (f s)
@@ -28,12 +35,22 @@ Fixpoint select {A} (bs : list bool) (l : list A) : list A :=
   | _, _ => []
   end.
 
+(* the events the ghost predicate does not look at: everything except ruledb.add and what
+   RuleDBBase.add does to its stores and to the equivalence database *)
+Definition neutral (e : event) : bool :=
+  match e with
+  | EvAdd _ _ _ _ | EvStore _ _ _ _ _ | EvPop _ _ | EvEdge _ _ _ | EvVerified _ => false
+  | _ => true
+  end.
+
 Section Inv.
 Variable T : table.
 Variable mode : Z.
 (* C switches the table contracts on: the theorems that need them are proved
    with C := True and the contracts as hypotheses, the others with C := False *)
 Variable C : Prop.
+(* the ghost predicate (only looked at where C holds) *)
+Variable G : @db Z -> list (Z * list Z) -> list (Z * list Z) -> list event -> Prop.
 
 Notation oracle := (oracle T).
 Notation entry_of := (entry_of T).
@@ -75,6 +92,9 @@ Definition store_ok (d : @db Z) (start : Z) (ends' : list Z) (sid parent : Z) : 
   lbl d parent = Some start /\
   exists ls bs,
     labels_of d (firstn (length ls) (kids_sp sid parent)) ls /\
+    (* ls are the labels of ALL children - or, for the calls of _symmetry_expand, of the first one *)
+    (length ls = length (kids_sp sid parent) \/
+     (length ls = 1%nat /\ kids_sp sid parent <> [] /\ sym_yielded sid parent)) /\
     length bs = length ls /\
     ends' = isort (select bs ls) /\
     (pe_of sid = false -> Forall (fun b => b = true) bs) /\
@@ -88,8 +108,16 @@ Definition ev_ok (d : @db Z) (e : event) : Prop :=
   | _ => True
   end.
 
+Definition Gs (s : st) : Prop := G (cdb s) (rstore s) (estore s) (trace s).
+
 Definition Inv (s : st) : Prop :=
-  WFd (cdb s) /\ (C -> EOK (cdb s)) /\ Forall (ev_ok (cdb s)) (trace s).
+  WFd (cdb s) /\ (C -> EOK (cdb s)) /\ Forall (ev_ok (cdb s)) (trace s) /\ (C -> Gs s).
+
+(* the ghost predicate survives the growth of a truthful class database *)
+Hypothesis G_frame : C -> forall d d' r e tr, (* in-section *)
+  WFd d -> WFd d' -> extends d d' -> EOK d -> EOK d' -> G d r e tr -> G d' r e tr.
+(* ... and the events that are none of its business *)
+Hypothesis G_skip : C -> forall ev d r e tr, neutral ev = true -> G d r e tr -> G d r e (ev :: tr). (* in-section *)
 
 Definition leq (s s' : st) : Prop :=
   Inv s' /\ extends (cdb s) (cdb s') /\ (running s' = true -> running s = true).
@@ -127,7 +155,7 @@ Proof.
     csplit; auto. exists sid0, c0, l0, r. csplit; auto. apply (lbl_ext d d' _ _ W W' X); auto.
   - intros (c & A & B). exists c; split; auto. apply (lbl_ext d d' _ _ W W' X); auto.
   - intros (A & ls & bs & B & D). split; [apply (lbl_ext d d' _ _ W W' X); auto|].
-    exists ls, bs. destruct D as (D1 & D2 & D3 & D4). csplit; auto. apply (labels_of_ext d d' _ _ W W' X); auto.
+    exists ls, bs. destruct D as (D0 & D1 & D2 & D3 & D4). csplit; auto. apply (labels_of_ext d d' _ _ W W' X); auto.
 Qed.
 
 Lemma RL_leq s s' c l : Inv s -> leq s s' -> RL s c l -> RL s' c l.
@@ -144,16 +172,18 @@ Qed.
 Lemma running_false_of_stat s : running s = false \/ running s = true.
 Proof. destruct (running s); auto. Qed.
 
-Lemma emit_ok e s : Inv s -> (running s = true -> ev_ok (cdb s) e) -> leq s (emit e s).
+(* emitting an event: the event is justified, and the ghost predicate takes the step *)
+Lemma emit_ok e s : Inv s -> (running s = true -> ev_ok (cdb s) e) ->
+  (C -> running s = true -> Gs s -> G (cdb s) (rstore s) (estore s) (e :: trace s)) -> leq s (emit e s).
 Proof.
-  intros I H. unfold emit. destruct (running s) eqn:R; [|apply leq_refl; auto].
-  destruct I as (W & E & F). unfold leq, Inv; simpl. csplit; auto using extends_refl.
+  intros I H HG. unfold emit. destruct (running s) eqn:R; [|apply leq_refl; auto].
+  destruct I as (W & E & F & Gh). unfold leq, Inv, Gs; simpl. csplit; auto using extends_refl.
 Qed.
 
 Lemma fail_ok c s : Inv s -> leq s (fail c s).
 Proof.
   intros I. unfold fail. destruct (running s) eqn:R; [|apply leq_refl; auto].
-  unfold leq, Inv, with_stat; simpl. destruct I as (W & E & F). csplit; auto using extends_refl.
+  unfold leq, Inv, Gs, with_stat; simpl. destruct I as (W & E & F & Gh). csplit; auto using extends_refl.
 Qed.
 
 Lemma fail_stopped c s : running (fail c s) = false.
@@ -162,13 +192,14 @@ Proof. unfold fail. destruct (running s) eqn:R; auto. Qed.
 Lemma out_of_fuel_ok s : Inv s -> leq s (out_of_fuel s).
 Proof.
   intros I. unfold out_of_fuel. destruct (running s) eqn:R; [|apply leq_refl; auto].
-  unfold leq, Inv, with_stat; simpl. destruct I as (W & E & F). csplit; auto using extends_refl.
+  unfold leq, Inv, Gs, with_stat; simpl. destruct I as (W & E & F & Gh). csplit; auto using extends_refl.
 Qed.
 
 (* updates of fields the invariant does not read *)
-Lemma frame_ok s s' : Inv s -> cdb s' = cdb s -> trace s' = trace s -> running s' = running s -> leq s s'.
+Lemma frame_ok s s' : Inv s -> cdb s' = cdb s -> trace s' = trace s -> running s' = running s ->
+  rstore s' = rstore s -> estore s' = estore s -> leq s s'.
 Proof.
-  intros (W & E & F) Hc Ht Hr. unfold leq, Inv. rewrite Hc, Ht, Hr. csplit; auto using extends_refl.
+  intros (W & E & F & Gh) Hc Ht Hr Hrs Hes. unfold leq, Inv, Gs. rewrite Hc, Ht, Hr, Hrs, Hes. csplit; auto using extends_refl.
 Qed.
 
 Lemma add_tried_ok l s : Inv s -> leq s (add_tried l s).
@@ -181,8 +212,31 @@ Lemma flush_symacc_ok s : Inv s -> leq s (flush_symacc s).
 Proof. intros I. unfold flush_symacc. destruct (running s) eqn:R; [apply frame_ok; auto|apply leq_refl; auto]. Qed.
 Lemma add_already_ok l s : Inv s -> leq s (add_already l s).
 Proof. intros I. unfold add_already. destruct (running s) eqn:R; [apply frame_ok; auto|apply leq_refl; auto]. Qed.
-Lemma with_stores_ok s r e : Inv s -> leq s (with_stores s r e).
-Proof. intros I. unfold with_stores. destruct (running s) eqn:R; [apply frame_ok; auto|apply leq_refl; auto]. Qed.
+(* RuleDBBase.add's final step: the events of the store part are emitted and the two stores replaced -
+   ONE step for the ghost predicate (in between the trace is ahead of the stores) *)
+Lemma emits_stores_ok es s r e : Inv s -> (running s = true -> Forall (ev_ok (cdb s)) es) ->
+  (C -> running s = true -> Gs s -> G (cdb s) r e (rev es ++ trace s)) ->
+  leq s (with_stores (emits es s) r e).
+Proof.
+  intros I H HG. destruct (running s) eqn:R.
+  - assert (forall es s0, running s0 = true ->
+              running (emits es s0) = true /\ cdb (emits es s0) = cdb s0 /\ trace (emits es s0) = rev es ++ trace s0) as Hem.
+    { clear. unfold emits. induction es as [|e0 t IH]; intros s0 R0; simpl; auto.
+      assert (running (emit e0 s0) = true) as R1 by (unfold emit; rewrite R0; exact R0).
+      destruct (IH _ R1) as (A & B & D). csplit; auto.
+      - rewrite B. unfold emit. rewrite R0. reflexivity.
+      - rewrite D. unfold emit. rewrite R0. simpl. rewrite <- app_assoc. reflexivity. }
+    destruct (Hem es s R) as (R1 & Hc & Ht).
+    destruct I as (W & E & F & Gh). unfold with_stores. rewrite R1.
+    unfold leq, Inv, Gs. cbn [cdb rstore estore trace]. rewrite Hc, Ht.
+    split; [|split; [apply extends_refl|auto]].
+    split; [exact W|]. split; [exact E|]. split; [|auto].
+    apply Forall_app. split; [apply Forall_rev; auto|exact F].
+  - assert (forall es s0, running s0 = false -> emits es s0 = s0) as Hem.
+    { clear. unfold emits. induction es as [|e0 t IH]; intros s0 R0; simpl; auto.
+      assert (emit e0 s0 = s0) as -> by (unfold emit; rewrite R0; reflexivity). auto. }
+    rewrite (Hem es s R). unfold with_stores. rewrite R. apply leq_refl; auto.
+Qed.
 
 Lemma pop_answer_ok s s' a : Inv s -> pop_answer s = (s', a) -> leq s s'.
 Proof.
@@ -197,13 +251,14 @@ Lemma cdb_op_ok s o s' r :
   leq s s' /\ trace s' = trace s /\ running s' = running s /\
   (running s = true -> cstep (cdb s) o = (cdb s', r)).
 Proof.
-  intros (W & E & F) Hh. unfold cdb_op. destruct (running s) eqn:R.
+  intros (W & E & F & Gh) Hh. unfold cdb_op. destruct (running s) eqn:R.
   - destruct (cstep (cdb s) o) as [d r0] eqn:Es. intros [= <- <-].
     pose proof (step_inv Z.eqb Zeqb_spec (fun c : Z => c) (fun k : Z => k) id_inv oracle (cdb s) o W) as Hs.
     rewrite Es in Hs. simpl in Hs. destruct Hs as (W' & X & HE & _).
     assert (Forall (ev_ok d) (trace s)) as F'.
     { eapply Forall_impl; [|exact F]. intros e. apply ev_ok_ext; auto. }
-    unfold leq, Inv, with_cdb; simpl. csplit; auto.
+    unfold leq, Inv, Gs, with_cdb; simpl. csplit; auto.
+    intros HC. apply (G_frame HC (cdb s) d); auto. apply (Gh HC).
   - intros [= <- <-]. csplit; auto; try discriminate. apply leq_refl; unfold Inv; auto.
 Qed.
 
@@ -290,7 +345,8 @@ Lemma set_empty_ev_ok s l v :
   leq s (set_empty_ev T s l v).
 Proof.
   intros I H. unfold set_empty_ev.
-  assert (leq s (emit (EvSetEmpty l v) s)) as L0 by (apply emit_ok; auto).
+  assert (leq s (emit (EvSetEmpty l v) s)) as L0.
+  { apply emit_ok; auto; intros HC _ Hg; apply (G_skip HC); auto. }
   set (s0 := emit (EvSetEmpty l v) s) in *.
   destruct (cdb_op T s0 (OpSetEmpty (KI l) v)) as [s1 r] eqn:Eo.
   assert (C -> running s0 = true -> honest (cdb s0) (OpSetEmpty (KI l) v)) as Hh.
@@ -305,4 +361,18 @@ Proof.
   destruct r; auto. eapply leq_trans; [exact L1|apply fail_ok; apply (leq_inv _ _ L1)].
 Qed.
 
+(* emitting an event the ghost predicate does not look at *)
+Lemma emit_neutral_ok e s : neutral e = true -> Inv s -> (running s = true -> ev_ok (cdb s) e) -> leq s (emit e s).
+Proof. intros Hn I H. apply emit_ok; auto; intros HC _ Hg; apply (G_skip HC); auto. Qed.
+
 End Inv.
+
+(* the trivial ghost predicate: Inv T C Gtriv is the plain invariant *)
+Definition Gtriv : @db Z -> list (Z * list Z) -> list (Z * list Z) -> list event -> Prop := fun _ _ _ _ => True.
+Lemma Gtriv_frame (T : table) (C : Prop) : C -> forall (d d' : @db Z) (r e : list (Z * list Z)) (tr : list event),
+  @WF Z d -> @WF Z d' -> extends d d' -> EmptyOK (fun k : Z => k) (oracle T) d -> EmptyOK (fun k : Z => k) (oracle T) d' ->
+  Gtriv d r e tr -> Gtriv d' r e tr.
+Proof. intros; exact Logic.I. Qed.
+Lemma Gtriv_skip (C : Prop) : C -> forall ev (d : @db Z) (r e : list (Z * list Z)) (tr : list event),
+  neutral ev = true -> Gtriv d r e tr -> Gtriv d r e (ev :: tr).
+Proof. intros; exact Logic.I. Qed.
